@@ -1,5 +1,5 @@
 // C05 (ranges and containers) - rvalue arguments are moved, never copied; lvalue arguments are left untouched.
-// Same instrumented element type and verdicts as C05_sum.cpp (see C05_common.hpp).  Lengths n = 0..3 are params,
+// Same instrumented element type and verdicts as C05_sum.cpp (see C05_common.hpp).  Lengths n = 0..3 (thorough: 4) are params,
 // payloads, predicate results and break positions are symbolic.
 // Registered: algorithm::{map, fold, fold_break, map_concat, map_optional, reverse, remove_if, generate_n},
 // container::{join, pop_back, pop_front, get_or_insert, make}, optional::{cat, sequence}, either::sequence.
@@ -313,7 +313,7 @@ void optional_cat_sequence()
   msgs const m = C05_MSGS("optional::cat/sequence");
   reset();
   unsigned const n{param_n()};
-  bool const h[3]{symb("h0"), symb("h1"), symb("h2")};
+  bool const h[4]{symb("h0"), symb("h1"), symb("h2"), symb("h3")};
   std::vector<opt::object<elem>> v, w;
   for (unsigned i = 0; i < n; ++i)
   {
@@ -352,7 +352,7 @@ void either_sequence()
   msgs const m = C05_MSGS("either::sequence");
   reset();
   unsigned const n{param_n()};
-  bool const s[3]{symb("s0"), symb("s1"), symb("s2")};
+  bool const s[4]{symb("s0"), symb("s1"), symb("s2"), symb("s3")};
   using eith = ei::object<elem1, elem>;
   std::vector<eith> v;
   for (unsigned i = 0; i < n; ++i) v.push_back(s[i] ? eith{mk(static_cast<int>(i))} : eith{mk<1>(4 + static_cast<int>(i))});
@@ -389,23 +389,33 @@ void either_sequence()
 
 H3(h_algorithm_map, algorithm_map)
 //@harness h_algorithm_map_{C} for C in rv,lv,clv param n=0..3 tier=quick
+//@harness h_algorithm_map_{C} for C in rv,lv,clv param n=4 tier=thorough
 H3(h_algorithm_fold, algorithm_fold)
 //@harness h_algorithm_fold_{C} for C in rv,lv,clv param n=0..3 tier=quick
+//@harness h_algorithm_fold_{C} for C in rv,lv,clv param n=4 tier=thorough
 H3(h_algorithm_map_concat_optional, algorithm_map_concat_optional)
 //@harness h_algorithm_map_concat_optional_{C} for C in rv,lv,clv param n=0..3 tier=quick
+//@harness h_algorithm_map_concat_optional_{C} for C in rv,lv,clv param n=4 tier=thorough
 H3(h_algorithm_reverse, algorithm_reverse)
 //@harness h_algorithm_reverse_{C} for C in rv,lv,clv param n=0..3 tier=quick
+//@harness h_algorithm_reverse_{C} for C in rv,lv,clv param n=4 tier=thorough
 H1(h_algorithm_remove_if_generate_n, algorithm_remove_if_generate_n)
 //@harness h_algorithm_remove_if_generate_n param n=0..3 tier=quick
+//@harness h_algorithm_remove_if_generate_n param n=4 tier=thorough
 H22(h_container_join, container_join)
 //@harness h_container_join_{C} for C in rv_rv,rv_lv,lv_rv,lv_lv,clv_clv param n=0..3 param k=0,2 tier=quick
+//@harness h_container_join_{C} for C in rv_rv,rv_lv,lv_rv,lv_lv,clv_clv param n=4 param k=0,3 tier=thorough
 H1(h_container_pop, container_pop)
 //@harness h_container_pop param n=0..3 tier=quick
+//@harness h_container_pop param n=4 tier=thorough
 H1(h_container_get_or_insert, container_get_or_insert)
 //@harness h_container_get_or_insert param n=0..3 tier=quick
+//@harness h_container_get_or_insert param n=4 tier=thorough
 H1(h_container_make, container_make)
 //@harness h_container_make tier=quick
 H3(h_optional_cat_sequence, optional_cat_sequence)
 //@harness h_optional_cat_sequence_{C} for C in rv,lv,clv param n=0..3 tier=quick
+//@harness h_optional_cat_sequence_{C} for C in rv,lv,clv param n=4 tier=thorough
 H1(h_either_sequence, either_sequence)
 //@harness h_either_sequence param n=0..3 tier=quick
+//@harness h_either_sequence param n=4 tier=thorough
